@@ -987,6 +987,7 @@ type vrouteObs struct {
 	Processed []interface{}            `json:"processed"`
 	Reported  []interface{}            `json:"reported"`
 	Quiet     bool                     `json:"quiet"`
+	Down      bool                     `json:"store_down,omitempty"`
 }
 
 func vIdOf(msg interface{}) interface{} {
@@ -1014,8 +1015,8 @@ func (o *vrouteObs) coq(mdb bool) string {
 		}
 		return vList(items)
 	}
-	return fmt.Sprintf("(mk_routecase %s %s %s %s %s %s %s %s %s)", vBool(mdb), vStrings(o.Ids), vStrings(o.Broken), vJSON(o.Root),
-		vList(logs), vStrings(o.Walked), js(o.Processed), js(o.Reported), vBool(o.Quiet))
+	return fmt.Sprintf("(mk_routecase %s %s %s %s %s %s %s %s %s %s)", vBool(mdb), vStrings(o.Ids), vStrings(o.Broken), vJSON(o.Root),
+		vList(logs), vStrings(o.Walked), js(o.Processed), js(o.Reported), vBool(o.Quiet), vBool(o.Down))
 }
 
 func vRouteCorpus() [](struct {
@@ -1057,7 +1058,15 @@ func vRouteCorpus() [](struct {
 func runRoute(t *testing.T, out *vout, ids []string, root map[string]interface{}, kind string) {
 	ids = append([]string{}, ids...)
 	sort.Strings(ids)
-	v := newVsvc(t, false)
+	// every fifth case has a store, and the store is down while the message and its offspring are processed: no state
+	// advances, but routing, reports and feedback go on as ever (a failed write is logged, not a reason to stop)
+	down := (len(vCanonText(ids))+2*len(vCanonText(root)))%5 == 3
+	for _, id := range ids {
+		if id == "" {
+			down = false // (the bolt store takes no empty key: the machine with the empty id lives in crews without a store)
+		}
+	}
+	v := newVsvc(t, down)
 	defer v.close()
 	v.s.Emitted = make(chan interface{}, 1<<16)
 	v.s.Processing = make(chan interface{}, 1<<16)
@@ -1089,7 +1098,11 @@ func runRoute(t *testing.T, out *vout, ids []string, root map[string]interface{}
 			t.Fatal(err)
 		}
 	}
-	obs := &vrouteObs{Ids: ids, Root: root, Logs: map[string][]interface{}{}}
+	obs := &vrouteObs{Ids: ids, Root: root, Logs: map[string][]interface{}{}, Down: down}
+	if down {
+		v.fault(false)
+		out.count("store-down-throughout")
+	}
 	for _, id := range ids {
 		if strings.HasPrefix(id, "zz-broken") {
 			obs.Broken = append(obs.Broken, id)
